@@ -213,11 +213,52 @@ theorem stripBraces_braces (u : Line) (hu : u ≠ []) : stripBraces ('{' :: (u +
   have : u.reverse.isEmpty = false := by simpa using hu
   simp [this]
 
+/-! ### `trim_start_matches([' ', '\t'])` (`blankStart`, since fix 15b47d2) -/
+
+theorem blankStart_idem (t : Line) : blankStart (blankStart t) = blankStart t := by
+  induction t with
+  | nil => rfl
+  | cons c r ih =>
+    by_cases hc : c = ' ' ∨ c = '\t'
+    · simp only [blankStart, hc, if_true, ih]
+    · simp only [blankStart, hc, if_false]
+
+theorem isWhite_of_blank {c : Char} (hc : c = ' ' ∨ c = '\t') : isWhite c = true := by
+  rcases hc with h | h <;> subst h <;> decide
+
+theorem trimStart_blankStart (t : Line) : trimStart (blankStart t) = trimStart t := by
+  induction t with
+  | nil => rfl
+  | cons c r ih =>
+    by_cases hc : c = ' ' ∨ c = '\t'
+    · simp only [blankStart, hc, if_true, ih]
+      simp [trimStart, List.dropWhile, isWhite_of_blank hc]
+    · simp only [blankStart, hc, if_false]
+
+theorem trim_blankStart (t : Line) : trim (blankStart t) = trim t := by
+  simp only [trim, trimStart_blankStart]
+
+theorem blankStart_ne_nil {t : Line} (h : (trim t).isEmpty = false) : blankStart t ≠ [] := by
+  intro hb
+  have h1 := trim_blankStart t
+  rw [hb] at h1
+  rw [← h1] at h
+  exact absurd h (by decide)
+
+theorem mem_blankStart {c : Char} {t : Line} (h : c ∈ blankStart t) : c ∈ t := by
+  induction t with
+  | nil => exact h
+  | cons d r ih =>
+    by_cases hd : d = ' ' ∨ d = '\t'
+    · simp only [blankStart, hd, if_true] at h
+      exact List.mem_cons_of_mem _ (ih h)
+    · simpa only [blankStart, hd, if_false] using h
+
 /-- the texts of the configuration lines the tokenizer reads from the fence line `update` writes for a block
 with the configuration lines `cfg`: none if they hold white space only, otherwise one, the joined text without
-its leading white space (`trim_start`) -/
+its leading blanks and tabs (`trim_start_matches([' ', '\t'])`, what YAML skips itself) -/
 def writtenCfg (cfg : Numbered) : List Line :=
-  if (trim (joinNumbered cfg)).isEmpty then [] else [trimStart (joinNumbered cfg)]
+  if (trim (joinNumbered cfg)).isEmpty then [] else [blankStart (joinNumbered cfg)]
 
 /-- The fence line that `update` writes for a block (`n ≥ 3` backticks, the language, the
 configuration suffix) is read back by the fence recogniser with the same backticks and language
@@ -240,16 +281,14 @@ theorem fence_line_reread_cfg (n : Nat) (hn : 3 ≤ n) (lang : Line) (hl : LangO
   · have he : (trim (joinNumbered cfg)).isEmpty = false := by simpa using he
     unfold writtenCfg
     generalize ht : joinNumbered cfg = t at he
-    have hu : trimStart t ≠ [] := by
-      intro h
-      simp [trim, h, trimEnd] at he
-    refine ⟨'{' :: (trimStart t ++ ['}']), ?_, ?_, ?_⟩
+    have hu : blankStart t ≠ [] := blankStart_ne_nil he
+    refine ⟨'{' :: (blankStart t ++ ['}']), ?_, ?_, ?_⟩
     · simp only [configSuffix, ht, he, Bool.false_eq_true, if_false]
-      exact fence_reread_config n hn lang hl (trimStart t)
+      exact fence_reread_config n hn lang hl (blankStart t)
     · intro j
-      have hj : joinNumbered [(j, trimStart t)] = trimStart t := by simp [joinNumbered, joinNl]
-      have hi : trimStart (trimStart t) = trimStart t := dropWhile_idem _ _
-      have htr : trim (trimStart t) = trim t := by simp only [trim, hi]
+      have hj : joinNumbered [(j, blankStart t)] = blankStart t := by simp [joinNumbered, joinNl]
+      have hi : blankStart (blankStart t) = blankStart t := blankStart_idem t
+      have htr : trim (blankStart t) = trim t := trim_blankStart t
       simp only [cfgLines, stripBraces_braces _ hu, configSuffix, hj, ht, htr, he, hi]
     · intro j
       simp only [cfgLines, stripBraces_braces _ hu, he, Bool.false_eq_true, if_false, List.map_cons, List.map_nil]
